@@ -99,6 +99,14 @@ func c14Counters(c *Ctx) {
 	for _, w := range ws[funcObj(rb)] {
 		c.Check(BinV(token.ADD, Load(br), ParamV("n"))(w.Val), R, "shape:bytesReceived+=n", c.P.InstrPos(w.Instr), "received bytes are counted as given")
 	}
+	// each datagram's bytes are reported exactly once: where it is taken from the receive queue,
+	// not where a (possibly replayed) packet is handled
+	rbI := c.obj(ah, "SentPacketHandler", "ReceivedBytes")
+	c.checkCallers(R, rbI, c.set([3]string{"", "Conn", "handlePackets"}), 1)
+	hp := c.fn("", "Conn", "handlePackets")
+	hop := c.obj("", "Conn", "handleOnePacket")
+	c.cut(R, "pair:dequeued datagram counted before it is handled", &Cut{Fn: hp, Target: CallsTo(hop), Barrier: CallsTo(rbI)}, "every datagram taken from the receive queue is counted towards the amplification budget")
+	c.cut(R, "once:no second count for the same datagram", &Cut{Fn: hp, Start: CallsTo(rbI), Target: CallsTo(rbI), Barrier: CallsTo(hop)}, "one count per handled datagram")
 	ws = c.checkWriters(R, pav, c.set([3]string{ah, "", "NewSentPacketHandler"}, [3]string{ah, "sentPacketHandler", "ReceivedPacket"}), 2)
 	rp := c.fn(ah, "sentPacketHandler", "ReceivedPacket")
 	persp := c.fld(ah, "sentPacketHandler", "perspective")
@@ -458,7 +466,30 @@ func c20Reduction(c *Ctx) {
 				return ok && fieldOfAddress(st.Addr) == lsalc && Load(lspn)(st.Val)
 			}}, "the recovery epoch is recorded so the next reduction waits for newer packets")
 	}
-	// no stats-free early exit: the guard is the only early return
+	// the packet number reported with a congestion event is that of a lost / acknowledged packet,
+	// never the largest sent one (which would start a new recovery epoch on every event)
+	oceI := c.obj(cong, "SendAlgorithm", "OnCongestionEvent")
+	largestAckedM := c.obj("internal/wire", "AckFrame", "LargestAcked")
+	sites := c.checkCallers(R, oceI, c.set([3]string{ah, "sentPacketHandler", "ReceivedAck"}, [3]string{ah, "sentPacketHandler", "detectLostPackets"}), 2)
+	for _, s := range sites {
+		ci, ok := s.Instr.(ssa.CallInstruction)
+		if !ok || len(ci.Common().Args) == 0 {
+			continue
+		}
+		a := ci.Common().Args[0]
+		okArg := CallTo(largestAckedM, -1)(a)
+		if p, isP := stripConv(a).(*ssa.Parameter); isP && p.Parent() == s.Fn && s.Fn.Parent() != nil {
+			okArg = true // the packet number yielded by the history iteration
+		}
+		if u, isU := stripConv(a).(*ssa.UnOp); isU {
+			// loop variable spilled to a cell inside the yield closure
+			if al, isAl := u.X.(*ssa.Alloc); isAl && s.Fn.Parent() != nil && isYieldParam(al, s.Fn) {
+				okArg = true
+			}
+		}
+		c.Check(okArg, R, "origin:OnCongestionEvent(packetNumber)@"+funcName(rootFn(s.Fn)), c.P.InstrPos(s.Instr),
+			"the congestion event names the lost packet (or the ACK's largest acknowledged), so that losses within one window count as one event")
+	}
 }
 
 func c20Gating(c *Ctx) {
